@@ -72,6 +72,65 @@ theorem C09_union_mem (cat ps qs : List Str) (a : Str) :
     a ∈ expand cat (ps ++ qs) ↔ a ∈ expand cat ps ∨ a ∈ expand cat qs := by
   rw [C09_union, mem_sortDedup, List.mem_append]
 
+/-! ### Further set laws: extremes, monotonicity, independence of pattern order and repetition -/
+
+/-- C09_ext: the expansion depends only on the *set* of patterns — reordering the list, or writing a
+    pattern twice, changes nothing (for Action and for NotAction). -/
+theorem C09_ext (cat ps qs : List Str) (h : ∀ p, p ∈ ps ↔ p ∈ qs) :
+    expand cat ps = expand cat qs ∧ expandNot cat ps = expandNot cat qs := by
+  constructor
+  · apply strictSorted_ext (sorted_expand _ _) (sorted_expand _ _)
+    intro a; rw [C09_expand_mem, C09_expand_mem]
+    constructor
+    · rintro ⟨hc, p, hp, hm⟩; exact ⟨hc, p, (h p).1 hp, hm⟩
+    · rintro ⟨hc, p, hp, hm⟩; exact ⟨hc, p, (h p).2 hp, hm⟩
+  · apply strictSorted_ext (sorted_expandNot _ _) (sorted_expandNot _ _)
+    intro a; rw [C09_not_mem, C09_not_mem]
+    constructor
+    · rintro ⟨hc, hn⟩; exact ⟨hc, fun p hp => hn p ((h p).2 hp)⟩
+    · rintro ⟨hc, hn⟩; exact ⟨hc, fun p hp => hn p ((h p).1 hp)⟩
+
+/-- C09_mono: more patterns allow more under Action and exclude more under NotAction. -/
+theorem C09_mono (cat ps qs : List Str) (h : ∀ p ∈ ps, p ∈ qs) (a : Str) :
+    (a ∈ expand cat ps → a ∈ expand cat qs) ∧ (a ∈ expandNot cat qs → a ∈ expandNot cat ps) := by
+  rw [C09_expand_mem, C09_expand_mem, C09_not_mem, C09_not_mem]
+  constructor
+  · rintro ⟨hc, p, hp, hm⟩; exact ⟨hc, p, h p hp, hm⟩
+  · rintro ⟨hc, hn⟩; exact ⟨hc, fun p hp => hn p (h p hp)⟩
+
+/-- C09_no_patterns: no pattern matches nothing; its complement is the whole catalogue. -/
+theorem C09_no_patterns (cat : List Str) :
+    expand cat [] = [] ∧ expandNot cat [] = sortDedup cat := by
+  constructor
+  · apply strictSorted_ext (sorted_expand _ _) (by simp [StrictSorted])
+    intro a; rw [C09_expand_mem]; simp
+  · apply strictSorted_ext (sorted_expandNot _ _) (strictSorted_sortDedup _)
+    intro a; rw [C09_not_mem, mem_sortDedup]; simp
+
+/-- C09_star: `*` expands to the whole catalogue (sorted, duplicate-free); `NotAction: "*"` to nothing —
+    also when `*` is only one of several patterns. -/
+theorem C09_star (cat ps : List Str) (h : ['*'] ∈ ps) :
+    expand cat ps = sortDedup cat ∧ expandNot cat ps = [] := by
+  have hstar : ∀ a : Str, gmatchCI ['*'] a = true := by
+    intro a
+    have : gmatchCI ['*'] a = gmatchCS ['*'] (a.map lowerChar) := by
+      simp [gmatchCI, gmatchFold, gmatchCS, lowerChar]
+    rw [this]; exact C08_star_all _
+  constructor
+  · apply strictSorted_ext (sorted_expand _ _) (strictSorted_sortDedup _)
+    intro a; rw [C09_expand_mem, mem_sortDedup]
+    exact ⟨fun h' => h'.1, fun hc => ⟨hc, ['*'], h, hstar a⟩⟩
+  · apply strictSorted_ext (sorted_expandNot _ _) (by simp [StrictSorted])
+    intro a; rw [C09_not_mem]
+    constructor
+    · rintro ⟨_, hn⟩; have := hn _ h; rw [hstar a] at this; cases this
+    · intro h'; cases h'
+
+/-- C09_subset_catalogue: whatever the patterns, an expansion never names an action outside the catalogue. -/
+theorem C09_subset_catalogue (cat ps : List Str) (a : Str) :
+    (a ∈ expand cat ps → a ∈ cat) ∧ (a ∈ expandNot cat ps → a ∈ cat) := by
+  rw [C09_expand_mem, C09_not_mem]; exact ⟨fun h => h.1, fun h => h.1⟩
+
 /-! ### The algorithms as written agree with the specification -/
 
 theorem mem_expandAction_pos (cat : List Str) (p a : Str) :
@@ -222,6 +281,8 @@ def demoCat : List Str := ["ec2:Run".toList, "iam:Get".toList, "s3:Get".toList, 
 example : stmtExpanded demoCat none (some (.many ["s3:*".toList, "ec2:*".toList])) = ["iam:Get".toList] := by decide
 example : expandNot demoCat ["s3:*".toList, "ec2:*".toList] = ["iam:Get".toList] := by decide
 example : expand demoCat ["S3:g*".toList, "iam:*".toList] = ["iam:Get".toList, "s3:Get".toList] := by decide
+example : expand demoCat ["s3:*".toList, "*".toList] = demoCat ∧ expandNot demoCat ["s3:*".toList, "*".toList] = [] := by decide
+example : expand demoCat ["s3:*".toList, "iam:*".toList, "s3:*".toList] = expand demoCat ["iam:*".toList, "s3:*".toList] := by decide
 
 end PycfModel.Actions
 
